@@ -167,20 +167,43 @@ TABLE_DOC = [
      "operands' elements (list concatenation / repetition)"),
     ("copy+elem of the arguments (selection)", " ".join(sorted(SELECT_FUNCS))),
     ("write x (in-place mutation)", "`x[...] = v` (write x, store x v), `x op= v` on a name (write x) or on a subscript (write x, "
-     "write x[...]), `del x[...]`, `out=x`, assignment to array attributes " + " ".join(sorted(ARRAY_META_ATTRS)) + "; functions " +
+     "write x[...]), `del x[...]`, assignment to array attributes " + " ".join(sorted(ARRAY_META_ATTRS)) + "; functions " +
      " ".join("%s(arg %d)" % kv for kv in sorted(MUTATING_FUNCS.items())) + "; methods " + " ".join(sorted(MUTATOR_METHODS)) +
      " (inserting ones also `store`)"),
+    ("out / copy / overwrite arguments", "`out=x` by keyword on any call, or POSITIONALLY at the index of OUT_POS / METHOD_OUT_POS (" +
+     " ".join("%s:%d" % kv for kv in sorted(OUT_POS.items())) + "; methods " + " ".join("%s:%d" % kv for kv in sorted(METHOD_OUT_POS.items())) +
+     "): x (and, for `out=(x,)`, its element) is written and is the result; with *args every argument is taken as a possible out. "
+     "`copy=` anything but the literal True, by keyword on any fresh / read-only function or positionally (" +
+     " ".join("%s:%d" % kv for kv in sorted(COPY_POS.items())) + "; astype:4): the result may be the first argument itself, converted in "
+     "place (np.array(x, copy=False/None/variable) is np.asarray). Keywords " + " ".join(sorted(INPLACE_KW)) +
+     " not literally False: every argument written. The positions are checked against the installed numpy on every run"),
     ("setattr y v", "`y.attr = v` on any other attribute (instances are not arrays or lists; methods may update their object); "
      "assignments to a property with a persim setter inline the setter"),
     ("matplotlib handles", "parameters named " + " ".join(sorted(HANDLE_PARAMS)) + " and every result of plt.* are handles (fresh site, "
      "not caller-owned); methods " + " ".join(sorted(HANDLE_METHODS)) + " and set_*/get_* write the receiver and may store the arguments; "
      "plt.* reads and writes the global PYPLOT"),
     ("rng", "np.random.* (np.random.shuffle also writes its argument)"),
-    ("persim calls", "functions, methods (self., super()., Class., by method name on unknown receivers), constructors, nested "
-     "functions, lambdas and `delayed(f)(...)` are inlined per call site (fresh variables and sites per call site)"),
-    ("callbacks", "calls through caller-supplied callables (parameters / attributes such as `weight`, `kernel`, `key=`) are assumed "
-     "read-only; result fresh or an alias of an argument"),
-    ("unknown calls", "result may alias any argument or be fresh; every argument and the receiver are written"),
+    ("persim calls", "functions, methods (self., super()., Class., by method name on unknown receivers; a method `self`'s class "
+     "leaves to its subclasses: every persim method of that name), constructors, nested functions, lambdas and `delayed(f)(...)` are "
+     "inlined per call site (fresh variables and sites per call site)"),
+    ("function values", "a variable may hold function values: persim functions / lambdas / nested defs, external or builtin functions "
+     "(`g = np.fill_diagonal`), persim classes, BOUND METHODS (`s = a.sort`, `getattr(a, 'sort')`, `getattr(a, name)`), "
+     "operator.itemgetter / attrgetter accessors, np.vectorize(f). A call through the variable applies every function value it "
+     "holds (a bound method as the method call it stands for). `map(f, xs)` / `filter(f, xs)` apply f to the elements, `key=` of "
+     "sorted / min / max / list.sort is applied to the elements, a vectorized function to the elements of its arguments"),
+    ("caller-supplied callables", "ONLY the parameters / instance attributes named " + " ".join(sorted(CALLER_CALLABLES)) +
+     " (documented as callables supplied by the caller) are assumed read-only when called; result fresh or an alias of an argument"),
+    ("unknown calls", "a call through anything else the translator cannot resolve (an unlisted library function, a method name in no "
+     "table on an unknown receiver, a parameter / attribute / call result used as a function, recursion): HAVOC — every object "
+     "reachable from the arguments and from the receiver / bound object may be written and linked to any other, the result is any "
+     "of them or fresh, function-valued arguments may be called on anything reachable, module-level state may be read and written"),
     ("globals", "module-level data names: readGlobal (value caller-visible, i.e. OWNED) unless listed as constants in policy.json; "
-     "`global x; x = …` writeGlobal; mutable default arguments are caller-visible (OWNED); verification hooks `_VERIF_*` are skipped"),
+     "`global x; x = …` writeGlobal; mutable default arguments are caller-visible (OWNED); verification hooks `_VERIF_*` are skipped. "
+     "CLASS attributes (`C.x`, `type(self).x`, `self.__class__.x`; dunder names excepted), FUNCTION attributes (`f.calls`), attributes / "
+     "items of modules and library objects (`os.environ[k] = v`, `np.core.x = v`; matplotlib's are the PYPLOT global) are module-level "
+     "state: reads readGlobal, stores writeGlobal. Library state functions: " +
+     " ".join("%s(%s%s:%s)" % (k, "r" if v[1] else "", "w" if v[2] else "", v[0].replace(" ", "_")) for k, v in sorted(STATE_FUNCS.items())) +
+     "; evaluating " + " ".join(sorted(STATE_READS)) + " is a read"),
+    ("loops", "a loop body (and a comprehension) is re-translated until the version sets of the names are stable; not stable after "
+     "8 passes: TranslatorError (the entry point then gets a deliberately failing obligation)"),
 ]
